@@ -5,7 +5,7 @@ import json, os, re, shutil, glob, sys
 SRC = sys.argv[1] if len(sys.argv) > 1 else '/tmp/mut'
 DST = '/verif/seeded'
 matrix = {}
-for log in glob.glob(os.path.join(SRC, 'matrix*.log')):
+for log in sorted(glob.glob(os.path.join(SRC, 'matrix*.log'))):  # later files override earlier entries
     for ln in open(log):
         m = re.match(r'(DETECTED|MISSED|PATCH-FAILED) (\S+)(?: by (C\d+) \((\w+)\))?(.*)', ln.strip())
         if not m: continue
@@ -31,8 +31,11 @@ for d in sorted(glob.glob(os.path.join(SRC, 'C*', 'm*'))):
     needs = ''
     mm = re.search(r'(?is)(what (?:it|is) need\w*[^\n]*\n.*?)(?:\n#|\n\*\*|\Z)', notes)
     if mm: needs = ' '.join(mm.group(1).split())[:900]
+    NEUTRAL = {'C11-m1': 'neutralised by fix d3240a8: executeCompaction now returns (nil, err) when closing the output fails, the only remaining (metadata, err) combination is a failing Close of an INPUT reader, for which the installed output is complete',
+               'C17-m2': 'neutralised by fix 295f567: PutBytes (through which Put goes) validates before anything is logged, so moving Put\'s own check behind the WAL append has no effect any more'}
     meta = {
         'property': prop,
+        'note': NEUTRAL.get(prop + '-' + m, ''),
         'origin': 'independent sub-agent given only the property text and a scratch worktree of the pinned commit',
         'patch': 'patch.diff (against the pinned commit df1ae8b)' + ('; patch.ported.diff (hand-ported to the repaired tree, same mechanism)' if os.path.exists(os.path.join(d, 'patch.ported.diff')) else ''),
         'needs_to_manifest': needs or 'see notes.md',
